@@ -271,7 +271,11 @@ func (s *stack) push(p *Path) {
 		parent.Next = p
 		p.Parent = parent
 	}
-	s.steps[s.count] = p
+	if s.count == len(s.steps) {
+		s.steps = append(s.steps, p)
+	} else {
+		s.steps[s.count] = p
+	}
 	s.count++
 }
 
